@@ -186,32 +186,29 @@ impl PatchChain {
             if let Ok(Some(file_info)) = entry.archive.find_file(filename) {
                 if file_info.is_patch_file() {
                     // This is a patch - read it raw (bypass the read_file check)
-                    match entry.archive.read_patch_file_raw(filename) {
-                        Ok(patch_data) => {
-                            // Parse the patch
-                            match PatchFile::parse(&patch_data) {
-                                Ok(patch) => patches.push((idx, patch)),
-                                Err(e) => {
-                                    log::warn!(
-                                        "Failed to parse patch file '{}' in archive {} (priority {}): {}",
-                                        filename,
-                                        entry.path.display(),
-                                        entry.priority,
-                                        e
-                                    );
-                                }
-                            }
-                        }
-                        Err(e) => {
-                            log::warn!(
-                                "Failed to read patch file '{}' in archive {} (priority {}): {}",
-                                filename,
-                                entry.path.display(),
-                                entry.priority,
-                                e
-                            );
-                        }
-                    }
+                    // A patch version that cannot be read or parsed is an error: skipping it would
+                    // return the base (or a lower patch level) as if it were the current version
+                    let patch_data = entry.archive.read_patch_file_raw(filename).map_err(|e| {
+                        log::warn!(
+                            "Failed to read patch file '{}' in archive {} (priority {}): {}",
+                            filename,
+                            entry.path.display(),
+                            entry.priority,
+                            e
+                        );
+                        e
+                    })?;
+                    let patch = PatchFile::parse(&patch_data).map_err(|e| {
+                        log::warn!(
+                            "Failed to parse patch file '{}' in archive {} (priority {}): {}",
+                            filename,
+                            entry.path.display(),
+                            entry.priority,
+                            e
+                        );
+                        e
+                    })?;
+                    patches.push((idx, patch));
                 } else if base_data.is_none() {
                     // This is a regular file - use as base if we haven't found one yet
                     match entry.archive.read_file(filename) {
